@@ -25,6 +25,19 @@ theorem receivedReset_over_limit {s : State} {id code fo : Nat} (hr : sidInitiat
     s.receivedReset id code fo = some (s, .error .streamLimit) := by
   unfold State.receivedReset; rw [validate_over_limit hr hi]
 
+/-- MAX_STREAM_DATA for a peer-initiated bidirectional stream at or beyond the advertised stream count
+    is refused with STREAM_LIMIT_ERROR and changes nothing -/
+theorem receivedMaxStreamData_over_limit {s : State} {id n : Nat} (hr : sidInitiator id ≠ s.side)
+    (hd : sidDir id = .bi) (hi : s.maxRemote.get (sidDir id) ≤ sidIndex id) :
+    s.receivedMaxStreamData id n = some (s, some .streamLimit) := by
+  unfold State.receivedMaxStreamData
+  have h1 : (decide (sidInitiator id ≠ s.side) && sidDir id == Dir.uni) = false := by simp [hd]
+  have h2 : (Gen.maxsdChecksRemoteLimit && decide (sidInitiator id ≠ s.side) &&
+      decide (sidIndex id ≥ s.maxRemote.get (sidDir id))) = true := by
+    simp only [Gen.maxsdChecksRemoteLimit, Bool.true_and, Bool.and_eq_true, decide_eq_true_eq]
+    exact ⟨hr, hi⟩
+  simp only [h1, h2, Bool.false_eq_true, ↓reduceIte]
+
 /-- on an existing, still receiving half `received` reports exactly `ingest`'s verdict -/
 theorem received_follows_ingest {s s' : State} {id off len : Nat} {fin : Bool} {rs : Recv} {e : TErr}
     (hv : s.validateReceiveId id = none) (hf : s.recv.find? id = some (some rs)) (hrcv : rs.isReceiving = true) :
